@@ -15,14 +15,23 @@
 (* statement.  Verdicts on the code are taken from PDFContract; here TLC checks *)
 (* that the algorithm refines it (SampleRefines, StepRefinesContract) and       *)
 (* enumerates every tree shape so each transition can be replayed.              *)
+(*                                                                              *)
+(* Two algorithms are transcribed, selected by ExactSums:                       *)
+(*   TRUE  - the repaired code (e0af2370e): add / update / remove recompute     *)
+(*           every touched inner node from its children (recomputeSums), and    *)
+(*           sample() steps right only if r > left, a right sibling exists and  *)
+(*           it carries weight.                                                 *)
+(*   FALSE - the code before the repair: += / -= of weight differences up the   *)
+(*           tree and an unguarded descent.                                     *)
+(* With exact (integer) arithmetic both behave identically.  Drift = TRUE adds  *)
+(* a design-level model of floating-point rounding; see the Drift section.      *)
 EXTENDS Naturals, Integers, Sequences, FiniteSets, TLC, Json
 
-CONSTANTS Weights,   \* set of small natural weights, 0 included
-          MaxSize,   \* bound on the number of elements
-          Drift      \* FALSE: exact arithmetic (integer weights, what the replay uses).
-                     \* TRUE: additionally allow update() to propagate a weight change that is
-                     \* off by one unit, the way a rounded `w - old` is (design-level model of
-                     \* floating-point weights; only the *Drift invariants are meant for it)
+CONSTANTS Weights,    \* set of small natural weights, 0 included
+          MaxSize,    \* bound on the number of elements
+          ExactSums,  \* TRUE: repaired algorithm; FALSE: delta propagation (defect D-C12)
+          Drift       \* FALSE: exact arithmetic (integer weights, what the replay uses);
+                      \* TRUE: sums / differences may be off by one unit (rounding model)
 
 VARIABLES data, rows, lastAct
 
@@ -31,6 +40,7 @@ vars == <<data, rows, lastAct>>
 Front(s) == SubSeq(s, 1, Len(s) - 1)
 Last(s) == s[Len(s)]
 Shr(i, k) == i \div (2 ^ k)
+Max(a, b) == IF a >= b THEN a ELSE b
 
 E(id, ix) == [id |-> id, ix |-> ix]
 Lab(d) == [i \in 1..Len(d) |-> E(i, d[i])]
@@ -40,48 +50,78 @@ Leaves(t) == IF t = <<>> THEN <<>> ELSE t[1]
 
 Act(name, args, d) == lastAct' = [act |-> name, args |-> args, perm |-> IdsOf(d)]
 
+(* ------------------------- rounding errors (Drift) ------------------------- *)
+(* An error vector gives, per tree row (0-based row index), the error of the one *)
+(* floating-point operation performed at that row: e \in {-1, 0, 1} units.       *)
+(* Sums are formed in rows 1..MaxRows-1; the descent also uses entry 0, for      *)
+(* r * head.                                                                     *)
+RECURSIVE RowsFor(_)
+RowsFor(n) == IF n <= 1 THEN 1 ELSE 1 + RowsFor((n + 1) \div 2)
+MaxRows == RowsFor(MaxSize)
+NoErr == [r \in 0..MaxRows |-> 0]
+DescErrs == IF Drift THEN [0..MaxRows - 1 -> {-1, 0, 1}] ELSE {NoErr}
+(* fl(a + b) for a, b >= 0: exact when an operand is zero, otherwise within one unit *)
+RoundAdd(a, b, e) == IF a = 0 \/ b = 0 THEN a + b ELSE a + b + e
+
+(* --------------------- recomputeSums (ExactSums = TRUE) --------------------- *)
+(* for (; row < tree_.size(); ++row, index >>= 1)                                 *)
+(*     tree_[row][index] = left+1 < below.size() ? below[left] + below[left+1]    *)
+(*                                               : below[left];                   *)
+RECURSIVE Recompute(_, _, _, _)
+Recompute(t, row, index, es) ==
+    IF row >= Len(t) THEN t
+    ELSE LET below == t[row]                        \* tree_[row - 1]
+             left  == 2 * index
+             v     == IF left + 1 < Len(below)
+                      THEN RoundAdd(below[left + 1], below[left + 2], es[row])
+                      ELSE below[left + 1]
+         IN  Recompute([t EXCEPT ![row + 1][index + 1] = v], row + 1, index \div 2, es)
+
 (* ---------------------------------- add ---------------------------------- *)
-(* while (i < tree_.size()) { tree_[i].back() += w; ++i; }                      *)
+(* old: while (i < tree_.size()) { tree_[i].back() += w; ++i; }                 *)
 AddBack(t, i, w) ==
     [r \in 1..Len(t) |-> IF r >= i + 1 THEN [t[r] EXCEPT ![Len(t[r])] = @ + w] ELSE t[r]]
 
 (* for (i = 1; i < tree_.size(); ++i) ... ; then the new head                   *)
-RECURSIVE AddLoop(_, _, _)
-AddLoop(t, i, w) ==
+RECURSIVE AddLoop(_, _, _, _)
+AddLoop(t, i, w, es) ==
     IF i < Len(t)
     THEN IF Len(t[i]) % 2 = 1                       \* tree_[i-1].size() % 2 == 1
-         THEN AddLoop([t EXCEPT ![i + 1] = Append(@, w)], i + 1, w)
-         ELSE AddBack(t, i, w)
-    ELSE Append(t, <<Last(t)[1] + Last(t)[2]>>)     \* head = back()[0] + back()[1]
+         THEN AddLoop([t EXCEPT ![i + 1] = Append(@, w)], i + 1, w, es)
+         ELSE IF ExactSums THEN Recompute(t, i, Len(t[i + 1]) - 1, es)   \* recomputeSums(i, tree_[i].size()-1)
+              ELSE AddBack(t, i, w)
+    ELSE Append(t, <<RoundAdd(Last(t)[1], Last(t)[2], es[Len(t)])>>)     \* head = back()[0] + back()[1]
 
-AddTree(t, nBefore, w) ==
+AddTree(t, nBefore, w, es) ==
     IF nBefore = 0                                   \* data_.size() == 1 after push_back
     THEN Append(t, <<w>>)
-    ELSE AddLoop([t EXCEPT ![1] = Append(@, w)], 1, w)
+    ELSE AddLoop([t EXCEPT ![1] = Append(@, w)], 1, w, es)
 
 (* -------------------------------- update --------------------------------- *)
-(* tree_[row][index >> row] += change for row >= 1                              *)
+(* old: tree_[row][index >> row] += change for row >= 1                         *)
 Propagate(t, index, change) ==
     [r \in 1..Len(t) |-> IF r = 1 THEN t[1]
                          ELSE [t[r] EXCEPT ![Shr(index, r - 1) + 1] = @ + change]]
 
-UpdateTree(t, index, w) ==
-    LET change == w - t[1][index + 1]
-    IN  Propagate([t EXCEPT ![1][index + 1] = w], index, change)
+UpdateTree(t, index, w, es) ==
+    LET t0 == [t EXCEPT ![1][index + 1] = w]         \* tree_.front()[index] = w
+    IN  IF ExactSums THEN Recompute(t0, 1, index \div 2, es)          \* recomputeSums(1, index >> 1)
+        ELSE Propagate(t0, index, w - t[1][index + 1])
 
 (* -------------------------------- remove --------------------------------- *)
 (* for (i = 1; i < tree_.size() && tree_[i-1].size() > 1; ++i) ...;             *)
 (* tree_.pop_back()                                                             *)
-RECURSIVE PopLoop(_, _, _)
-PopLoop(t, i, weight) ==
+RECURSIVE PopLoop(_, _, _, _)
+PopLoop(t, i, weight, es) ==
     IF i < Len(t) /\ Len(t[i]) > 1
     THEN IF Len(t[i]) % 2 = 0
-         THEN PopLoop([t EXCEPT ![i + 1] = Front(@)], i + 1, weight)
-         ELSE AddBack(t, i, 0 - weight)              \* back() -= weight upwards; return
+         THEN PopLoop([t EXCEPT ![i + 1] = Front(@)], i + 1, weight, es)
+         ELSE IF ExactSums THEN Recompute(t, i, Len(t[i + 1]) - 1, es)   \* recomputeSums(i, tree_[i].size()-1); return
+              ELSE AddBack(t, i, 0 - weight)         \* back() -= weight upwards; return
     ELSE Front(t)                                    \* redundant head removed
 
-(* result: [d, t, sib, swap] for data_.size() > 1 *)
-RemoveBody(d, t, index) ==
+(* result: [d, t, sib, swap] for data_.size() > 1; es, es2: errors of the two passes *)
+RemoveBody(d, t, index, es, es2) ==
     LET n      == Len(d)
         nl     == Len(t[1])
         isLast == index + 1 = n
@@ -92,58 +132,72 @@ RemoveBody(d, t, index) ==
         sib    == ~isLast /\ index + 2 = n /\ index % 2 = 0
         weight == IF isLast \/ sib THEN Last(t1[1]) ELSE t1[1][index + 1]
         t2     == IF isLast \/ sib THEN t1
+                  ELSE IF ExactSums THEN Recompute(t1, 1, index \div 2, es)   \* recomputeSums(1, index >> 1)
                   ELSE Propagate(t1, index, weight - Last(t1[1]))
-        t3     == PopLoop([t2 EXCEPT ![1] = Front(@)], 1, weight)
+        t3     == PopLoop([t2 EXCEPT ![1] = Front(@)], 1, weight, es2)
     IN  [d |-> Front(d1), t |-> t3, sib |-> sib, swap |-> ~isLast]
 
 (* -------------------------------- sample --------------------------------- *)
 (* r = j/16.  The code multiplies r by the head and walks down; here everything *)
 (* is scaled by 16: r16 = j * head, compared with 16 * tree_[row][node].        *)
-(* Result: 0-based leaf index.                                                  *)
-RECURSIVE Desc(_, _, _, _)
-Desc(t, row, node, r16) ==
+(* ExactSums: step right only if r > left, a right sibling exists and it is > 0. *)
+(* Result: 0-based leaf index, or -1 when the walk reads past the end of a row   *)
+(* (a value rather than a TLC error, so that invariants can speak about it).     *)
+(* ds: rounding errors of r * head (ds[0]) and of r -= left (ds[row]); a         *)
+(* difference of two distinct doubles is never rounded to 0, hence Max(1, ..).   *)
+RECURSIVE Desc(_, _, _, _, _)
+Desc(t, row, node, r16, ds) ==
     IF row = 0 THEN node
-    ELSE LET left == 16 * t[row][2 * node + 1]       \* tree_[row-1][node<<1]
-         IN  IF r16 > left THEN Desc(t, row - 1, 2 * node + 1, r16 - left)
-             ELSE Desc(t, row - 1, 2 * node, r16)
-Descent(t, j) == Desc(t, Len(t) - 1, 0, j * Last(t)[1])
+    ELSE LET below == t[row]                         \* tree_[row - 1]
+             li    == 2 * node + 1                   \* 1-based position of tree_[row-1][node << 1]
+         IN  IF li > Len(below) THEN -1
+             ELSE LET left == 16 * below[li]
+                      right == IF ExactSums THEN r16 > left /\ li + 1 <= Len(below) /\ below[li + 1] > 0
+                               ELSE r16 > left
+                  IN  IF right THEN Desc(t, row - 1, 2 * node + 1, Max(1, r16 - left + ds[row]), ds)
+                      ELSE Desc(t, row - 1, 2 * node, r16, ds)
+DescentD(t, j, ds) ==
+    LET head == Last(t)[1]
+        r16  == IF j = 0 \/ j = 16 \/ head <= 0 THEN j * head ELSE Max(1, j * head + ds[0])
+    IN  Desc(t, Len(t) - 1, 0, r16, ds)
+Descent(t, j) == DescentD(t, j, NoErr)
 
 (* -------------------------------- actions -------------------------------- *)
 Init == data = <<>> /\ rows = <<>> /\ lastAct = [act |-> "Init", args |-> <<>>, perm |-> <<>>]
 
-Add(w) ==
+Add(w, es) ==
     /\ Len(data) < MaxSize
     /\ LET n  == Len(data)
            d1 == Append(Lab(data), E(n + 1, n))      \* new Element(d, data_.size())
-           t1 == AddTree(rows, n, w)
+           t1 == AddTree(rows, n, w, es)
        IN  /\ data' = IxOf(d1) /\ rows' = t1
            /\ Act("Add", [w |-> w, grow |-> Len(t1) - Len(rows)], d1)
 
-Update(s, w) ==
+Update(s, w, es) ==
     /\ s \in 1..Len(data) /\ w # rows[1][s]
     /\ LET index == Lab(data)[s].ix
        IN  /\ index < Len(data)                      \* else the code throws
-           /\ rows' = UpdateTree(rows, index, w)
+           /\ rows' = UpdateTree(rows, index, w, es)
     /\ UNCHANGED data
     /\ Act("Update", [pos |-> s, w |-> w], Lab(data))
 
-(* update() with a rounded weight change: the leaf gets w exactly (tree_.front()[index] = w), *)
-(* the inner nodes get change + e                                                            *)
+(* the code before the repair with a rounded weight change: the leaf gets w exactly, the    *)
+(* inner nodes get change + e                                                                *)
 UpdateDrift(s, w, e) ==
-    /\ Drift /\ s \in 1..Len(data) /\ w # rows[1][s]
+    /\ Drift /\ ~ExactSums /\ s \in 1..Len(data) /\ w # rows[1][s]
     /\ LET index == Lab(data)[s].ix
            change == w - rows[1][index + 1]
        IN  rows' = Propagate([rows EXCEPT ![1][index + 1] = w], index, change + e)
     /\ UNCHANGED data
     /\ Act("UpdateDrift", [pos |-> s, w |-> w, e |-> e], Lab(data))
 
-Remove(s) ==
+Remove(s, es, es2) ==
     /\ s \in 1..Len(data)
     /\ IF Len(data) = 1
        THEN /\ data' = <<>> /\ rows' = <<>>
             /\ Act("Remove", [pos |-> s, swap |-> FALSE, sib |-> FALSE, shrunk |-> 0,
                               head |-> FALSE, single |-> TRUE], <<>>)
-       ELSE LET res == RemoveBody(Lab(data), rows, Lab(data)[s].ix)
+       ELSE LET res == RemoveBody(Lab(data), rows, Lab(data)[s].ix, es, es2)
             IN  /\ data' = IxOf(res.d) /\ rows' = res.t
                 /\ Act("Remove", [pos |-> s, swap |-> res.swap, sib |-> res.sib,
                                   shrunk |-> Cardinality({r \in 2..Len(res.t) : Len(res.t[r]) < Len(rows[r])}),
@@ -153,10 +207,17 @@ Clear ==
     /\ data' = <<>> /\ rows' = <<>>
     /\ Act("Clear", [n |-> Len(data)], <<>>)
 
+(* rounding of sums only exists in the repaired algorithm's recomputation; the old algorithm's *)
+(* rounding is modelled by UpdateDrift (enough for the counterexamples)                        *)
+SumErrs == IF Drift /\ ExactSums THEN [1..MaxRows - 1 -> {-1, 0, 1}] ELSE {NoErr}
+(* remove() makes up to two recomputation passes; their errors are independent, but for   *)
+(* trees of more than 3 rows the model reuses the first vector to keep TLC's work bounded *)
+Pass2Errs(es) == IF MaxRows <= 3 THEN SumErrs ELSE {es}
+
 Next ==
-    \/ \E w \in Weights : Add(w)
-    \/ \E s \in 1..Len(data), w \in Weights : Update(s, w)
-    \/ \E s \in 1..Len(data) : Remove(s)
+    \/ \E w \in Weights, es \in SumErrs : Add(w, es)
+    \/ \E s \in 1..Len(data), w \in Weights, es \in SumErrs : Update(s, w, es)
+    \/ \E s \in 1..Len(data), es \in SumErrs : \E es2 \in Pass2Errs(es) : Remove(s, es, es2)
     \/ Clear
     \/ \E s \in 1..Len(data), w \in Weights, e \in {-1, 1} : UpdateDrift(s, w, e)
 
@@ -197,22 +258,23 @@ SampleRefines ==
                 IN  /\ k \in 1..Len(data)            \* data_[node] inside the storage
                     /\ k \in adm[j + 1]
 
-(* ---- the two clauses that need no exact sums, for the Drift model.  The descent is      *)
-(* re-stated with a guard so that stepping outside a row is a value (-1), not a TLC error.  *)
-RECURSIVE DescG(_, _, _, _)
-DescG(t, row, node, r16) ==
-    IF row = 0 THEN node
-    ELSE IF 2 * node + 1 > Len(t[row]) THEN -1       \* tree_[row-1][node<<1] does not exist
-    ELSE LET left == 16 * t[row][2 * node + 1]
-         IN  IF r16 > left THEN DescG(t, row - 1, 2 * node + 1, r16 - left)
-             ELSE DescG(t, row - 1, 2 * node, r16)
-DescentG(t, j) == DescG(t, Len(t) - 1, 0, j * Last(t)[1])
-
+(* ---- Drift model: the clauses that must survive rounding.                              *)
+(* every inner node is the (rounded) sum of its children: nothing stale is left behind     *)
+RowsAreRoundedSums ==
+    \A r \in 2..Len(rows) : \A k \in 1..Len(rows[r]) :
+        LET a == rows[r - 1][2 * k - 1]
+        IN  IF 2 * k <= Len(rows[r - 1])
+            THEN LET b == rows[r - 1][2 * k]
+                 IN  rows[r][k] \in {RoundAdd(a, b, e) : e \in {-1, 0, 1}}
+            ELSE rows[r][k] = a
+(* whatever the rounding inside the descent, it ends on an element of the storage ...      *)
 SampleInStorageDrift ==
-    Len(data) > 0 => \A j \in Sixteenths : DescentG(rows, j) \in 0..Len(data) - 1
+    Len(data) > 0 => \A j \in Sixteenths, ds \in DescErrs : DescentD(rows, j, ds) \in 0..Len(data) - 1
+(* ... and for 0 < r < 1 never on an element of weight zero when some weight is not zero   *)
 NoZeroWeightDrawnDrift ==
     (Len(data) > 0 /\ C!Total(Listed(rows)) > 0) =>
-        \A j \in 1..15 : LET k == DescentG(rows, j) IN k \in 0..Len(data) - 1 => rows[1][k + 1] > 0
+        \A j \in 1..15, ds \in DescErrs :
+            LET k == DescentD(rows, j, ds) IN k \in 0..Len(data) - 1 => rows[1][k + 1] > 0
 
 (* every step changes the listed elements as the contract says; labels (handles) of      *)
 (* survivors keep their weights                                                           *)
